@@ -3,7 +3,8 @@
    the sink's replies, so the loop is re-expressed as a core action indexed by `last`
    (the mlc_ functions), shown equal to the ml_ functions of the model, and the compositional law `Good` is
    proved for it. *)
-From RG Require Import Base.Bytes Model.Lines Model.SearcherCore Model.Glue Proofs.PrefixLaw Proofs.PrefixCore.
+From RG Require Import Base.Bytes Model.Lines Model.SearcherCore Model.Glue Proofs.PrefixLaw Proofs.PrefixCore
+  Proofs.MLInvExt.
 
 (* the whole-run statement from a Good body, for any strategy *)
 Section RunLaw.
@@ -88,16 +89,25 @@ Section ML.
       end
     end.
 
+  (* the range to deliver and the core after the search for the lines to exclude *)
+  Definition mlc_found (c : core) : option (nat * nat * core) :=
+    match ml_find M c s with
+    | None => Some (pos c, length s, set_pos c (length s))
+    | Some (a, b) =>
+      let (ls, le) := locate ltb_ s a b in
+      match ml_inv_extend cfg M (S (length s)) (ml_advance c s a b) s le with
+      | Some (c', le') => Some (pos c, ls, set_pos c' le')
+      | None => None
+      end
+    end.
+
   Definition mlc_inverted (r : nat -> reply) (c : core) : outcome :=
-    let '(rs, re, c) :=
-      match ml_find M c s with
-      | None => (pos c, length s, set_pos c (length s))
-      | Some (a, b) =>
-        let (ls, le) := locate ltb_ s a b in
-        (pos c, ls, ml_advance c s ls le)
-      end in
-    if Nat.leb re rs then OK true c else
-    andthen (ml_sink_context cfg r c s rs) (fun c => mlc_inv_loop r (S (length s)) c rs re).
+    match mlc_found c with
+    | None => FUEL
+    | Some (rs, re, c) =>
+      if Nat.leb re rs then OK true c else
+      andthen (ml_sink_context cfg r c s rs) (fun c => mlc_inv_loop r (S (length s)) c rs re)
+    end.
 
   Definition mlc_sink (last : option (nat * nat)) (r : nat -> reply) (c : core) : outcome :=
     if c_invert cfg then mlc_inverted r c else
@@ -135,11 +145,12 @@ Section ML.
     ml_sink cfg M r m s = lift_ml (mlc_sink (ml_last m) r (ml_core m)) (next_last (ml_core m) (ml_last m)).
   Proof.
     unfold ml_sink, mlc_sink, next_last. destruct (c_invert cfg).
-    - unfold ml_sink_matched_inverted, mlc_inverted.
+    - unfold ml_sink_matched_inverted, mlc_inverted, mlc_found.
       destruct (ml_find M (ml_core m) s) as [[a b]|].
       + destruct (locate ltb_ s a b) as [ls le].
+        destruct (ml_inv_extend cfg M (S (length s)) (ml_advance (ml_core m) s a b) s le) as [[c' le']|]; [|reflexivity].
         destruct (Nat.leb ls (pos (ml_core m))); [reflexivity|].
-        destruct (ml_sink_context cfg r (ml_advance (ml_core m) s ls le) s (pos (ml_core m))) as [[|] c'| |];
+        destruct (ml_sink_context cfg r (set_pos c' le') s (pos (ml_core m))) as [[|] c''| |];
           cbn [ml_lift andthen lift_ml]; try reflexivity.
         apply inv_loop_eq.
       + destruct (Nat.leb (length s) (pos (ml_core m))); [reflexivity|].
@@ -230,35 +241,52 @@ Section ML.
   Lemma good_dep (F : core -> action) : (forall c0, Good (F c0)) -> Good (fun r c => F c r c).
   Proof. intros H r c. exact (H c r c). Qed.
 
+  (* the decisions of mlc_found depend on the position only; the core keeps everything else *)
+  Definition found_pos (c0 : core) : option (nat * nat * nat) :=
+    match ml_find M c0 s with
+    | None => Some (pos c0, length s, length s)
+    | Some (a, b) =>
+      let (ls, le) := locate ltb_ s a b in
+      match ml_ext_pos cfg M s (S (length s)) (adv_pos s a b) le with
+      | Some (q, le') => Some (pos c0, ls, le')
+      | None => None
+      end
+    end.
+
+  Lemma mlc_found_eq c : mlc_found c =
+    match found_pos c with Some (rs, re, q) => Some (rs, re, set_pos c q) | None => None end.
+  Proof.
+    unfold mlc_found, found_pos. destruct (ml_find M c s) as [[a b]|]; [|reflexivity].
+    destruct (locate ltb_ s a b) as [ls le]. rewrite ml_inv_extend_eq, ml_advance_eq. cbn [pos set_pos].
+    destruct (ml_ext_pos cfg M s (S (length s)) (adv_pos s a b) le) as [[q le']|]; reflexivity.
+  Qed.
+
   Lemma good_inverted : Good mlc_inverted.
   Proof.
+    apply (good_ext (fun r c =>
+      match found_pos c with
+      | None => FUEL
+      | Some (rs, re, q) =>
+        if Nat.leb re rs then OK true (set_pos c q) else
+        andthen (ml_sink_context cfg r (set_pos c q) s rs) (fun c => mlc_inv_loop r (S (length s)) c rs re)
+      end)).
+    { intros r c. unfold mlc_inverted. rewrite mlc_found_eq. destruct (found_pos c) as [[[rs re] q]|]; reflexivity. }
     apply (good_dep (fun c0 r c =>
-      let '(rs, re, c1) :=
-        match ml_find M c0 s with
-        | None => (pos c0, length s, set_pos c (length s))
-        | Some (a, b) => let (ls, le) := locate ltb_ s a b in (pos c0, ls, ml_advance c s ls le)
-        end in
-      if Nat.leb re rs then OK true c1 else
-      andthen (ml_sink_context cfg r c1 s rs) (fun c => mlc_inv_loop r (S (length s)) c rs re))).
-    intro c0. destruct (ml_find M c0 s) as [[a b]|].
-    - destruct (locate ltb_ s a b) as [ls le]. destruct (Nat.leb ls (pos c0)).
-      + exact (good_ret (fun _ => true) (fun c => ml_advance c s ls le) (fun c => ltac:(unfold ml_advance; destruct (_ && _); reflexivity))).
-      + apply (good_pre (fun c => ml_advance c s ls le)
-                 (fun r c => andthen (ml_sink_context cfg r c s (pos c0)) (fun c => mlc_inv_loop r (S (length s)) c (pos c0) ls))).
-        * intro c. unfold ml_advance. destruct (_ && _); reflexivity.
-        * apply (good_andthen (fun r c => ml_sink_context cfg r c s (pos c0))
-                              (fun r c => mlc_inv_loop r (S (length s)) c (pos c0) ls)).
-          -- apply good_ml_sink_context.
-          -- apply good_inv_loop.
-    - destruct (Nat.leb (length s) (pos c0)).
-      + exact (good_ret (fun _ => true) (fun c => set_pos c (length s)) (fun _ => eq_refl)).
-      + apply (good_pre (fun c => set_pos c (length s))
-                 (fun r c => andthen (ml_sink_context cfg r c s (pos c0)) (fun c => mlc_inv_loop r (S (length s)) c (pos c0) (length s)))).
-        * reflexivity.
-        * apply (good_andthen (fun r c => ml_sink_context cfg r c s (pos c0))
-                              (fun r c => mlc_inv_loop r (S (length s)) c (pos c0) (length s))).
-          -- apply good_ml_sink_context.
-          -- apply good_inv_loop.
+      match found_pos c0 with
+      | None => FUEL
+      | Some (rs, re, q) =>
+        if Nat.leb re rs then OK true (set_pos c q) else
+        andthen (ml_sink_context cfg r (set_pos c q) s rs) (fun c => mlc_inv_loop r (S (length s)) c rs re)
+      end)).
+    intro c0. destruct (found_pos c0) as [[[rs re] q]|]; [|apply good_fuel].
+    destruct (Nat.leb re rs).
+    - exact (good_ret (fun _ => true) (fun c => set_pos c q) (fun _ => eq_refl)).
+    - apply (good_pre (fun c => set_pos c q)
+               (fun r c => andthen (ml_sink_context cfg r c s rs) (fun c => mlc_inv_loop r (S (length s)) c rs re))).
+      + reflexivity.
+      + apply (good_andthen (fun r c => ml_sink_context cfg r c s rs) (fun r c => mlc_inv_loop r (S (length s)) c rs re)).
+        * apply good_ml_sink_context.
+        * apply good_inv_loop.
   Qed.
 
   Lemma good_mlc_sink last : Good (mlc_sink last).
